@@ -142,19 +142,19 @@ def _discr_is(v, k):
     return v.discr == z3.BitVecVal(k, 64)
 
 
-@intrinsic(r'^(std|core)::option::Option::<.*>::is_none$', 'Option::is_none')
+@intrinsic(r'^((std|core)::option::)?Option::<.*>::is_none$', 'Option::is_none')
 def _is_none(eng, st, args, ci):
     v = eng.read_ref(st, args[0]) if isinstance(args[0], Ref) else args[0]
     return _discr_is(v, 0)
 
 
-@intrinsic(r'^(std|core)::option::Option::<.*>::is_some$', 'Option::is_some')
+@intrinsic(r'^((std|core)::option::)?Option::<.*>::is_some$', 'Option::is_some')
 def _is_some(eng, st, args, ci):
     v = eng.read_ref(st, args[0]) if isinstance(args[0], Ref) else args[0]
     return _discr_is(v, 1)
 
 
-@intrinsic(r'^(std|core)::option::Option::<.*>::(unwrap|expect)$', 'Option::unwrap/expect')
+@intrinsic(r'^((std|core)::option::)?Option::<.*>::(unwrap|expect)$', 'Option::unwrap/expect')
 def _opt_unwrap(eng, st, args, ci):
     v = args[0]
     alts = []
@@ -170,7 +170,7 @@ def _opt_unwrap(eng, st, args, ci):
     return res
 
 
-@intrinsic(r'^(std|core)::option::Option::<.*>::unwrap_or$', 'Option::unwrap_or')
+@intrinsic(r'^((std|core)::option::)?Option::<.*>::unwrap_or$', 'Option::unwrap_or')
 def _opt_unwrap_or(eng, st, args, ci):
     v, d = args
     if 1 not in v.payloads:
@@ -178,7 +178,7 @@ def _opt_unwrap_or(eng, st, args, ci):
     return merge_val(_discr_is(v, 1), v.payloads[1].items[0], d)
 
 
-@intrinsic(r'^(std|core)::result::Result::<.*>::(unwrap|expect)$', 'Result::unwrap/expect')
+@intrinsic(r'^((std|core)::result::)?Result::<.*>::(unwrap|expect)$', 'Result::unwrap/expect')
 def _res_unwrap(eng, st, args, ci):
     v = args[0]
     ok_c = _discr_is(v, 0)
@@ -193,13 +193,13 @@ def _res_unwrap(eng, st, args, ci):
     return res
 
 
-@intrinsic(r'^(std|core)::result::Result::<.*>::is_ok$', 'Result::is_ok')
+@intrinsic(r'^((std|core)::result::)?Result::<.*>::is_ok$', 'Result::is_ok')
 def _is_ok(eng, st, args, ci):
     v = eng.read_ref(st, args[0]) if isinstance(args[0], Ref) else args[0]
     return _discr_is(v, 0)
 
 
-@intrinsic(r'^(std|core)::result::Result::<.*>::is_err$', 'Result::is_err')
+@intrinsic(r'^((std|core)::result::)?Result::<.*>::is_err$', 'Result::is_err')
 def _is_err(eng, st, args, ci):
     v = eng.read_ref(st, args[0]) if isinstance(args[0], Ref) else args[0]
     return _discr_is(v, 1)
@@ -606,7 +606,7 @@ def _fork_on_option(eng, st, v, on_some, on_none):
     return res
 
 
-@intrinsic(r'^(std|core)::option::Option::<.*>::and_then::<', 'Option::and_then (closure body = real MIR)')
+@intrinsic(r'^((std|core)::option::)?Option::<.*>::and_then::<', 'Option::and_then (closure body = real MIR)')
 def _opt_and_then(eng, st, args, ci):
     v, f = args
     return _fork_on_option(eng, st, v,
@@ -614,7 +614,7 @@ def _opt_and_then(eng, st, args, ci):
                            lambda s: [(s, 'ret', NONE)])
 
 
-@intrinsic(r'^(std|core)::option::Option::<.*>::map::<', 'Option::map (closure body = real MIR)')
+@intrinsic(r'^((std|core)::option::)?Option::<.*>::map::<', 'Option::map (closure body = real MIR)')
 def _opt_map(eng, st, args, ci):
     v, f = args
 
@@ -626,7 +626,7 @@ def _opt_map(eng, st, args, ci):
     return _fork_on_option(eng, st, v, on_some, lambda s: [(s, 'ret', NONE)])
 
 
-@intrinsic(r'^(std|core)::option::Option::<.*>::map_or::<', 'Option::map_or (closure body = real MIR)')
+@intrinsic(r'^((std|core)::option::)?Option::<.*>::map_or::<', 'Option::map_or (closure body = real MIR)')
 def _opt_map_or(eng, st, args, ci):
     v, d, f = args
     return _fork_on_option(eng, st, v,
@@ -634,7 +634,7 @@ def _opt_map_or(eng, st, args, ci):
                            lambda s: [(s, 'ret', d)])
 
 
-@intrinsic(r'^(std|core)::option::Option::<.*>::unwrap_or_else::<', 'Option::unwrap_or_else')
+@intrinsic(r'^((std|core)::option::)?Option::<.*>::unwrap_or_else::<', 'Option::unwrap_or_else')
 def _opt_unwrap_or_else(eng, st, args, ci):
     v, f = args
     return _fork_on_option(eng, st, v,
@@ -642,7 +642,7 @@ def _opt_unwrap_or_else(eng, st, args, ci):
                            lambda s: eng.call_value(s, f, [], ci.dest_ty))
 
 
-@intrinsic(r'^(std|core)::option::Option::<.*>::(as_ref|as_mut)$', 'Option::as_ref')
+@intrinsic(r'^((std|core)::option::)?Option::<.*>::(as_ref|as_mut)$', 'Option::as_ref')
 def _opt_as_ref(eng, st, args, ci):
     r = args[0]
     v = eng.read_ref(st, r)
@@ -897,7 +897,7 @@ def _string_clear(eng, st, args, ci):
     return UNIT
 
 
-@intrinsic(r'^(std|core)::option::Option::<.*>::ok_or_else::<', 'Option::ok_or_else (closure body = real MIR)')
+@intrinsic(r'^((std|core)::option::)?Option::<.*>::ok_or_else::<', 'Option::ok_or_else (closure body = real MIR)')
 def _opt_ok_or_else(eng, st, args, ci):
     v, f = args
 
@@ -909,7 +909,7 @@ def _opt_ok_or_else(eng, st, args, ci):
     return _fork_on_option(eng, st, v, lambda s, x: [(s, 'ret', Enum('Result', 0, {0: Tup([x])}))], on_none)
 
 
-@intrinsic(r'^(std|core)::option::Option::<.*>::ok_or::<', 'Option::ok_or')
+@intrinsic(r'^((std|core)::option::)?Option::<.*>::ok_or::<', 'Option::ok_or')
 def _opt_ok_or(eng, st, args, ci):
     v, e = args
     d = z3.If(v.discr == 1, z3.BitVecVal(0, 64), z3.BitVecVal(1, 64))
